@@ -38,6 +38,7 @@ func init() {
 		ruleHNSWOrder(r, "C12")
 		ruleFlushRetention(r, "C12.FLUSH", k)
 		ruleHNSWEmpty(r, "C12.EMPTY")
+		ruleHNSWDefaults(r, "C12.DEFAULTS")
 		ruleVecAtomicAndRevive(r, k)
 		ruleScanADM(r, "C12.ADM", k, admSpec{SKIP: true, THR: true})
 		ruleProvenance(r, "C12.PROV", k)
@@ -108,5 +109,50 @@ func init() {
 		r.FloorCheck("C14.TRAINSIZE", 3)
 		r.FloorCheck("C14.TABLE", 4)
 		r.FloorCheck("C14.RESID", 3)
+	})
+}
+
+func init() {
+	register("C15", propMeta{
+		Explanation: "Recall is a statistical runtime quantity: the floors themselves are NOT decided. Decided is the conjunction of the structural necessary conditions whose violation produces the regressions the property names: HNSW new vertices receive incoming links, an isolated vertex becomes entry point, frontier not gated by deletions, nearest (not farthest) neighbours kept, layer-search comparison shapes, constructor defaults positive in every sign pattern; IVF / IVFPQ probe the p nearest clusters and scan each one's list; PQ / IVFPQ encode by argmin, slice codebooks identically, pair table[m] with code[m], use one cluster index for residual centroid and list (per probe); k-means: argmin assignment, no aliasing of training data, fresh accumulators, deterministic; exact scan admission for the probed lists.",
+		NotDecided:  "every recall figure of the statement (0.9 / 0.4 / 1.0 / 0.5 / 85% / insertion-order independence within 0.1): no recall value is measured by this family.",
+		Assumptions: []string{"C12, C13, C14, C18, C20 rule sets"},
+	}, func(r *Run) {
+		w := r.W
+		ruleHNSWLayerSearch(r, "C15.FRONTIER", true)
+		ruleHNSWLinkEntry(r, "C15")
+		ruleHNSWOrder(r, "C15")
+		ruleHNSWDefaults(r, "C15.DEFAULTS")
+		for _, kn := range []string{"ivf", "ivfpq"} {
+			if k, err := kindByName(w, kn); err == nil {
+				ruleProbes(r, "C15", k)
+			}
+		}
+		if k, err := kindByName(w, "ivf"); err == nil {
+			ruleIVFAssign(r, "C15", k)
+		}
+		rulePQ(r, "C15")
+		fns := append(annEncodeFns(w), w.Fn("FindNearestCentroidIndex"), w.Fn("kmeansInternal"))
+		n := ruleArgmins(r, "C15.ARGMIN", fns)
+		if n < 4 {
+			r.add("C15.ARGMIN", "argmin:floor", "-", "fewer than 4 argmin loops", Floor)
+		}
+		ruleNoAlias(r, "C15.IMM", []*ssa.Function{w.Fn("kmeansInternal")})
+		ruleKMeansShape(r, "C15")
+		ruleKMeansUpdate(r, "C15.UPDATE")
+		ruleDeterminism(r, "C15.DET", trainRoots(w))
+		for _, kn := range []string{"ivf", "pq", "ivfpq", "hnsw"} {
+			if k, err := kindByName(w, kn); err == nil {
+				spec := admSpec{DEL: true, SKIP: true, THR: true}
+				if kn == "hnsw" {
+					spec.DEL = false
+				}
+				ruleScanADM(r, "C15.ADM", k, spec)
+				ruleResultOrder(r, "C15.ORD.less", k)
+			}
+		}
+		r.FloorCheck("C15.ORD", 7)
+		r.FloorCheck("C15.ORD.probe", 10)
+		r.FloorCheck("C15.TABLE", 4)
 	})
 }
